@@ -54,7 +54,7 @@ PROP = {
               'model/implementation correspondence',
  'design_ref': 'DESIGN.md 6.4',
  'n_quick': 1500,
- 'n_thorough': 30000,
+ 'n_thorough': 20000,
  'shard': 125,
  'level': 'proof',
  'trusted_base': [KERNEL,
